@@ -258,7 +258,7 @@ Proof. intros H. unfold schar. destruct (b <? 128) eqn:E; lia. Qed.
 Lemma process_downstream_ack_ok u s f : user_ok_gen P u -> user_ok_gen P (process_downstream_ack u s f).
 Proof.
   intros H. unfold process_downstream_ack. cbv zeta.
-  destruct (p_len (u_out u) =? 0); [exact H|]. destruct (negb _); [exact H|].
+  destruct (p_len (u_out u) =? 0); [exact H|]. destruct (negb _); [exact H|]. destruct (p_sentlen (u_out u) =? 0); [exact H|].
   match goal with |- user_ok_gen P (if ?c then _ else _) => destruct c eqn:E end.
   - apply get_from_outpacketq_ok.
     uok H; try lia. destruct I_out. constructor; cbn; try lia; try assumption. apply schar_wrap_range.
